@@ -553,7 +553,8 @@ free piece:
 #[cfg(abyssiniandb_verif)]
 pub(crate) fn verif_value_slot(value_len: usize) -> (u32, u32) {
     let piece_mgr = PieceMgr::new(&REC_SIZE_FREE_OFFSET, &REC_SIZE_ARY);
-    let piece = ValuePiece::with_value(&vec![0u8; value_len]);
+    // (no copy of the buffer: the probe is called for every length up to 2^24)
+    let piece = ValuePiece::with(ValuePieceOffset::new(0), ValuePieceSize::new(0), vec![0u8; value_len]);
     let (encorded_piece_len, piece_len, _value_len) = piece.encoded_piece_size();
     let est = encorded_piece_len + piece_len;
     (est, piece_mgr.roundup(ValuePieceSize::new(est)).as_value())
